@@ -137,8 +137,8 @@ def check_degenerate(case, ctx):
         heights = np.zeros(2, dtype=np.float64)          # zero heights as numpy values (ALTO import, guessed heights)
     poly = case['poly']
     ctx.state(('deg', name, poly))
-    img = (coord_image()[:, :, :3] % 256).astype(np.uint8)
-    for lh in (16, 48):
+    full_img = (coord_image()[:, :, :3] % 256).astype(np.uint8)
+    for lh, img in ((16, full_img), (48, full_img), (48, full_img[:40].copy())):      # last: a page strip lower than the configured line height
         eng = EngineLineCropper(line_height=lh, poly=poly, scale=1)
         try:
             crop = eng.crop(img, np.asarray(pts), list(heights))
@@ -155,7 +155,7 @@ def check_degenerate(case, ctx):
         cfg = configparser.ConfigParser()
         cfg['LINE_CROPPER'] = {'INTERP': str(poly), 'LINE_SCALE': '1', 'LINE_HEIGHT': str(lh)}
         lc = LineCropper(cfg['LINE_CROPPER'])
-        page = PageLayout(id='p', page_size=(IMG_H, IMG_W))
+        page = PageLayout(id='p', page_size=img.shape[:2])
         reg = RegionLayout('r', np.zeros((4, 2)))
         reg.lines.append(TextLine(id='l', baseline=np.asarray(pts), heights=list(heights)))
         page.regions.append(reg)
@@ -373,6 +373,24 @@ def check_case(case, ctx):
                 page.regions.append(reg)
                 lc.process_page(image, page)
                 c1 = reg.lines[0].crop
+                if shift == (0, 0) and case['start'] == 1:
+                    # history on one page object: the layout is refined (the baseline moves down by 3 px) and the page is cropped again -
+                    # every line then carries the crop of its CURRENT baseline
+                    moved = np.asarray(pts) + np.asarray([0, 3])
+                    reg.lines[0].baseline = moved
+                    lc.process_page(image, page)
+                    again = reg.lines[0].crop
+                    l3 = TextLine(id='l3', baseline=moved.copy(), heights=[h_up, h_down])
+                    LineCropper(cfg['LINE_CROPPER']).crop_lines(image, [l3])
+                    ctx.executed(2)
+                    if again is None or again.shape != l3.crop.shape or np.abs(again.astype(np.float64) - l3.crop.astype(np.float64)).max() > 1e-3:
+                        ctx.violation('samples-the-band', f'{ID}/LineCropper/process_page/second-pass-keeps-the-crop-of-the-old-baseline',
+                                      f'{desc}: after the baseline was moved to {moved.tolist()} and the page cropped again, the line does not carry the crop of '
+                                      f'its current baseline')
+                        return
+                    reg.lines[0].baseline = np.asarray(pts) + np.asarray(shift)
+                    reg.lines[0].crop = c1
+                    ctx.tag('page-cropped-again-after-the-layout-changed')
                 l2 = TextLine(id='l2', baseline=np.asarray(pts) + np.asarray(shift), heights=[h_up, h_down])
                 lc.crop_lines(image, [l2])
                 res.append((c1, l2.crop))
@@ -418,5 +436,5 @@ def describe(tier):
                         'for degenerate baselines both a proper crop and a blank image of the configured height are accepted'],
         'min_nontrivial': 100,
         'required_tags': ['consecutive-crops-of-equal-shape', 'baselines-with-more-than-64-points', 'curved-baselines', 'cubic-with-4-or-more-points', 'general-path-vs-fast-path', 'fast-path-vs-full-remap',
-                          'degenerate-baselines', 'cropped-twice', 'line-cropper-partly-outside', 'baseline-dtypes'],
+                          'degenerate-baselines', 'cropped-twice', 'line-cropper-partly-outside', 'baseline-dtypes', 'page-cropped-again-after-the-layout-changed'],
     }
